@@ -7,6 +7,7 @@ import datetime
 from functools import partial
 import logging
 import os
+import pickle
 import re
 from warnings import warn
 
@@ -1664,11 +1665,19 @@ class FlowProposal(RejectionProposal):
             if os.path.exists(weights_file):
                 try:
                     self.flow.reload_weights(weights_file)
-                except (EOFError, OSError, RuntimeError):
+                except (
+                    EOFError,
+                    OSError,
+                    RuntimeError,
+                    pickle.UnpicklingError,
+                ):
                     logger.warning(
                         "Could not load weights, trying previous weights file"
                     )
                     self.flow.reload_weights(weights_file + ".old")
+                    # The damaged file must not be rotated over the only
+                    # good copy by the next call to save_weights.
+                    os.remove(weights_file)
             elif os.path.exists(weights_file + ".old"):
                 self.flow.reload_weights(weights_file + ".old")
         else:
